@@ -4,11 +4,15 @@
 # The first failing case of each caught pair is copied to $OUT/corpus/<ID>/<Sxx>.json
 # (regression input for the current generator version; copy into /verif/corpus to adopt).
 #   tools/seedsweep.sh [Sxx ...]        default: all;  OUT defaults to /dev/shm/seedsweep
+# Several sweeps over disjoint seeds may run side by side when each has its own ALT directory
+# (ALT=/dev/shm/sweepA tools/seedsweep.sh S01 S02 ... &).
 set -u
 export GOFLAGS=-mod=mod GOPROXY=off GOSUMDB=off GOTOOLCHAIN=local
 cd /verif
 OUT=${OUT:-/dev/shm/seedsweep}
-mkdir -p $OUT/corpus /tmp/wt
+ALT=${ALT:-/dev/shm}
+export VERIF_ALT_BASE=$ALT
+mkdir -p $OUT/corpus /tmp/wt $ALT
 sel="$*"
 for d in seeded/S*; do
   sid=$(basename $d | cut -d- -f1)
@@ -19,7 +23,7 @@ for d in seeded/S*; do
   git -C /repo worktree add -q --detach $wt HEAD || { echo "$sid worktree failed"; continue; }
   if ! git -C $wt apply $(realpath $d)/patch.diff; then echo "$sid PATCH-DOES-NOT-APPLY"; git -C /repo worktree remove --force $wt; continue; fi
   for c in $checks; do
-    rm -rf /dev/shm/verif-alt-failures/$c
+    rm -rf $ALT/verif-alt-failures/$c
     out=$(VERIF_REPO=$wt VERIF_SEED=${VERIF_SEED:-1} ./check $c ${MUT_TIER:-quick} 2>&1)
     if echo "$out" | grep -q "^VIOLATION"; then
       f=$(echo "$out" | grep -m1 "^VIOLATION" | sed 's/.*replay=//')
